@@ -1,4 +1,5 @@
 #pragma once
+#include "refs_fp.hpp"
 #include "refs_int.hpp"
 
 namespace xv
@@ -6,5 +7,6 @@ namespace xv
     inline void register_all_specs()
     {
         register_int_specs();
+        register_fp_specs();
     }
 }
